@@ -553,11 +553,39 @@ def diff_ref_value(r, x, path, out, seed="ref"):
             leaves = {("reg", n) for n in regs}
             good = bad = 0
             worst = None
+            # measurement values that are exactly zero (a legitimate outcome), one register at a time:
+            # where the reference is confident, the transform must return the value, not raise
+            base = _ref_points(leaves, seed + "/" + path + "/zero", 1)[0]
+            for n0 in sorted(regs)[:3]:
+                for z in (0.0, -0.0):
+                    pt = dict(base)
+                    pt[("reg", n0)] = V("f", z)
+                    try:
+                        ref = r.evaluate(pt)
+                    except (OOD, ZeroDivisionError, OverflowError, ValueError):
+                        continue
+                    try:
+                        got = complex(x.func(*[pt[("reg", n)].v for n in listed]))
+                    except (ZeroDivisionError, OverflowError, FloatingPointError):
+                        continue
+                    except Exception as e:  # noqa
+                        out.append((path, "regref-raises-at-zero", repr(ref), "%s: %s with q%d = %r" % (type(e).__name__, str(e)[:80], n0, z)))
+                        return
+                    if math.isfinite(got.real) and math.isfinite(got.imag) and abs(got - complex(ref.v)) > refnum.tolerance(ref):
+                        out.append((path, "value:regref-at-zero", repr(ref), "%r with q%d = %r" % (got, n0, z)))
+                        return
             for pt in _ref_points(leaves, seed + "/" + path, 7):
                 try:
                     ref = r.evaluate(pt)
-                    got = complex(x.func(*[pt[("reg", n)].v for n in listed]))
                 except (OOD, ZeroDivisionError, OverflowError, ValueError):
+                    continue
+                try:
+                    got = complex(x.func(*[pt[("reg", n)].v for n in listed]))
+                except (ZeroDivisionError, OverflowError, FloatingPointError):
+                    continue
+                except Exception as e:  # noqa
+                    bad += 1
+                    worst = (pt, ref, "%s: %s" % (type(e).__name__, str(e)[:80]))
                     continue
                 if not (math.isfinite(got.real) and math.isfinite(got.imag)):
                     bad += 1
